@@ -882,10 +882,7 @@ func (fr *Frame) havocLoop(st *State, li *loopInfo, ws *dryCtx) {
 		}
 		nv := st.freshValue(ph.Type(), "phi."+ph.Comment)
 		fr.regs[ph] = nv
-		if ph.Comment != "" {
-			fr.env[ph.Comment] = nv
-			delete(fr.envAddr, ph.Comment)
-		}
+		fr.bindPhi(ph, nv, li)
 	}
 	fr.havocWrites(st, ws)
 }
@@ -959,10 +956,7 @@ func (fr *Frame) dryRun(st *State, li *loopInfo) *dryCtx {
 		}
 		nv := st2.freshValue(ph.Type(), "dry."+ph.Comment)
 		f2.regs[ph] = nv
-		if ph.Comment != "" {
-			f2.env[ph.Comment] = nv
-			delete(f2.envAddr, ph.Comment)
-		}
+		f2.bindPhi(ph, nv, li)
 	}
 	func() {
 		defer func() {
